@@ -404,3 +404,47 @@ Proof.
     change (ch 47) with slash. rewrite Hq. exists q. split; [reflexivity|]. split; [|assumption].
     rewrite Hv. apply signed_comp. unfold dec_value. rewrite app_nil_r, digits_val_zeros_lead. reflexivity.
 Qed.
+
+(* integer part with a non-zero digit:  0..0 c d1 . D2 0..0 *)
+Lemma s2r_dec_b Z c d1 D2 T neg : is_posdig c = true -> all_digits d1 = true -> all_digits D2 = true -> ends_pos D2 ->
+  (length D2 + T > 0)%nat ->
+  exists q, s2r_core neg (zeros Z ++ (c :: d1) ++ dot :: D2 ++ zeros T) = StrVal q /\
+            (q == signed neg (dec_value (zeros Z ++ c :: d1) (D2 ++ zeros T)))%Q /\ Qred q = q.
+Proof.
+  intros Hc Hd1 HD2 HE Hlen. unfold s2r_core.
+  (* pass 1 *)
+  rewrite p1_zeros_0. cbn [app p1_run]. rewrite (p1_step_0_pos c _ _ _ Hc).
+  rewrite p1_digits_1 by assumption. cbn [p1_run]. rewrite step_dot_1.
+  change 2 with (st23 0). pose proof (p1_digits_23 (D2 ++ zeros T) (1 + length d1) 0 false []) as H1.
+  rewrite app_nil_r in H1. rewrite H1 by (rewrite all_digits_app, HD2, all_digits_zeros; reflexivity). clear H1.
+  rewrite p23_D_zeros by assumption. cbn [p1_run p1_frac p1_nom].
+  replace (1 + length d1 + length D2)%nat with (S (length d1 + length D2)) by lia. cbv iota.
+  (* pass 2 *)
+  unfold p2_run. fold (p2_from (Build_p2 0 1 0) (zeros Z ++ c :: d1 ++ dot :: D2 ++ zeros T)).
+  replace (zeros Z ++ c :: d1 ++ dot :: D2 ++ zeros T) with ((zeros Z ++ c :: d1) ++ [dot] ++ (D2 ++ zeros T))
+    by (rewrite <- !app_assoc; reflexivity).
+  rewrite (p2_from_app _ (zeros Z ++ c :: d1)), (p2_from_app _ [dot]).
+  rewrite p2_digits_0 by (rewrite all_digits_app, all_digits_zeros; now apply all_digits_pos).
+  change (p2_from (Build_p2 0 1 0) [dot]) with (Build_p2 (st12 0) 1 0).
+  rewrite p2_digits_12 by (rewrite all_digits_app, HD2, all_digits_zeros; reflexivity).
+  rewrite p23_D_zeros by assumption. cbn [p2_den].
+  replace (1 + length D2 - 1)%nat with (length D2) by lia.
+  (* pass 3 *)
+  rewrite <- !app_assoc. rewrite p3_skip_zeros. cbn [app].
+  replace (S (length d1 + length D2)) with (S (length d1) + length D2)%nat by lia.
+  rewrite (p3_copy_start c d1 (length D2) _ Hc Hd1).
+  assert (H3 : p3_copy true (length D2) (dot :: D2 ++ zeros T) = Some D2).
+  { destruct D2 as [|x D2']; [apply p3_zero_any|]. cbn [length]. rewrite p3_skip_dot_true.
+    pose proof (p3_copy_digits_true (x :: D2') 0 (zeros T) HD2) as H. rewrite Nat.add_0_r, p3_zero_any in H.
+    cbn [option_map] in H. rewrite app_nil_r in H. exact H. }
+  rewrite H3. cbn [option_map].
+  destruct (normalize_built c (d1 ++ D2) (length D2) neg Hc) as (q & Hq & Hv & Hr).
+  { now rewrite all_digits_app, Hd1, HD2. }
+  change (ch 47) with slash. change (repeat (ch 48) (length D2)) with (zeros (length D2)).
+  cbn [app] in Hq |- *. rewrite Hq. exists q. split; [reflexivity|]. split; [|assumption].
+  rewrite Hv. apply signed_comp. unfold dec_value.
+  replace ((zeros Z ++ c :: d1) ++ D2 ++ zeros T) with (zeros Z ++ (c :: d1 ++ D2) ++ zeros T)
+    by (cbn [app]; rewrite <- !app_assoc; reflexivity).
+  rewrite digits_val_zeros_lead, digits_val_zeros_trail, app_length, zeros_length.
+  symmetry. apply value_scale.
+Qed.
